@@ -76,3 +76,118 @@ def absr(case):
     return [[_s(new.left), _s(new.right), _s(new.margin_left), _s(new.margin_right), str(Fraction(new.position_x))],
             [_s(new.top), _s(new.bottom), _s(new.margin_top), _s(new.margin_bottom), str(Fraction(new.position_y))],
             [str(Fraction(new.width)), str(Fraction(new.height))]]
+
+
+# ------------------------------------------------------------------------------------ float.py, direct calls
+
+def _shape(s):
+    """an excluded shape: (float side, x, y, margin width, margin height)"""
+    side, x, y, w, h = s
+    x, y, w, h = Fraction(x), Fraction(y), Fraction(w), Fraction(h)
+    return SimpleNamespace(position_x=x, position_y=y, margin_width=lambda: w, margin_height=lambda: h,
+                           style={'float': side})
+
+
+def _cb(cbx, cbw, rtl=False):
+    cbx, cbw = Fraction(cbx), Fraction(cbw)
+    return SimpleNamespace(content_box_x=lambda: cbx, width=cbw, style={'direction': 'rtl' if rtl else 'ltr'})
+
+
+def _fbox(b):
+    """b: dict(kind, py, ml, mr, mt, mb, bw, bh); a real box instance whose geometry methods are the real ones:
+    the border box is made of width/height only (paddings and borders 0)."""
+    from weasyprint.formatting_structure import boxes
+    kind = b['kind']
+    cls = {'left': boxes.BlockBox, 'right': boxes.BlockBox, 'line': boxes.LineBox, 'table': boxes.BlockBox,
+           'bfc': boxes.BlockBox, 'replaced': boxes.BlockReplacedBox}[kind]
+    box = object.__new__(cls)
+    box.style = {'float': kind if kind in ('left', 'right') else 'none', 'position': 'static',
+                 'overflow': 'hidden', 'display': ('block', 'flow'), 'direction': 'ltr'}
+    box.children = []
+    box.is_table_wrapper = kind == 'table'
+    box.is_column = False
+    box.position_x = Fraction(b.get('px', 0))
+    box.position_y = Fraction(b['py'])
+    box.margin_left, box.margin_right = Fraction(b['ml']), Fraction(b['mr'])
+    box.margin_top, box.margin_bottom = Fraction(b['mt']), Fraction(b['mb'])
+    box.width, box.height = Fraction(b['bw']), Fraction(b['bh'])
+    for side in ('left', 'right', 'top', 'bottom'):
+        setattr(box, 'padding_' + side, 0)
+        setattr(box, 'border_%s_width' % side, 0)
+    return box
+
+
+def ffp(case):
+    """find_float_position on a stub context: case = dict(shapes, cbx, cbw, box)."""
+    from weasyprint.layout import float as fl
+    context = SimpleNamespace(excluded_shapes=[_shape(s) for s in case['shapes']])
+    box = _fbox(case['box'])
+    new = fl.find_float_position(context, box, _cb(case['cbx'], case['cbw'], case.get('rtl', False)))
+    return [str(Fraction(new.position_x)), str(Fraction(new.position_y))]
+
+
+def avc(case):
+    """avoid_collisions(outer=False) for a line / table wrapper / replaced block / formatting-context root."""
+    from weasyprint.layout import float as fl
+    context = SimpleNamespace(excluded_shapes=[_shape(s) for s in case['shapes']])
+    box = _fbox(case['box'])
+    x, y, aw = fl.avoid_collisions(context, box, _cb(case['cbx'], case['cbw'], case.get('rtl', False)), outer=False)
+    return [str(Fraction(x)), str(Fraction(y)), str(Fraction(aw))]
+
+
+def fseq(case):
+    """a sequence of floats placed one after the other into an empty context, as float_layout does after the
+    layout of each float: find_float_position then excluded_shapes.append(box)."""
+    from weasyprint.layout import float as fl
+    context = SimpleNamespace(excluded_shapes=[])
+    out = []
+    for req in case['reqs']:
+        box = _fbox(req['box'])
+        new = fl.find_float_position(context, box, _cb(req['cbx'], req['cbw']))
+        context.excluded_shapes.append(new)
+        out.append([str(Fraction(new.position_x)), str(Fraction(new.position_y))])
+    return out
+
+
+def clr(case):
+    from weasyprint.layout import float as fl
+    context = SimpleNamespace(excluded_shapes=[_shape(s) for s in case['shapes']])
+    box = SimpleNamespace(position_y=Fraction(case['py']), style={'clear': case['clear']})
+    if case.get('cm') is None:
+        r = fl.get_clearance(context, box)
+    else:
+        r = fl.get_clearance(context, box, Fraction(case['cm']))
+    return None if r is None else str(Fraction(r))
+
+
+# ------------------------------------------------------------------------ relative_positioning, direct call
+
+def _rbox(t):
+    """t = dict(rel, inline, ltr, offs=[l,r,t,b], x, y, kids)"""
+    from weasyprint.formatting_structure import boxes
+    from weasyprint.css.properties import Dimension
+    box = object.__new__(boxes.InlineBox if t['inline'] else boxes.BlockBox)
+
+    def dim(v):
+        return 'auto' if v == 'auto' else Dimension(Fraction(v), 'px')
+    l, r, tp, bo = t['offs']
+    box.style = {'position': 'relative' if t['rel'] else 'static', 'direction': 'ltr' if t['ltr'] else 'rtl',
+                 'left': dim(l), 'right': dim(r), 'top': dim(tp), 'bottom': dim(bo), 'float': 'none'}
+    box.position_x, box.position_y = Fraction(t['x']), Fraction(t['y'])
+    box.children = [_rbox(k) for k in t['kids']]
+    return box
+
+
+def _positions(box, out):
+    out.append([str(Fraction(box.position_x)), str(Fraction(box.position_y))])
+    for c in box.children:
+        _positions(c, out)
+    return out
+
+
+def rel(case):
+    from weasyprint.layout import block
+    box = _rbox(case['tree'])
+    sibling = _rbox(case['tree'])
+    r = block.relative_positioning(box, (Fraction(case['cbw']), Fraction(case['cbh'])))
+    return {'ret': r is None, 'pos': _positions(box, []), 'sibling': _positions(sibling, [])}
